@@ -180,3 +180,108 @@ func burstCases(r *rng.R, thorough bool) {
 		runBurst(r, sp)
 	}
 }
+
+// rawChunks: the ChunkWriter that Connect returns carries every chunk to the server's reader whole,
+// whatever its size up to what one gRPC message may hold: sizes at and next to the round numbers a
+// transport is likely to split at (exact multiples of 64 KiB / 1 MiB). The server handler reads the
+// raw bytes; every chunk must arrive (a chunk whose last message is not marked as its end is never
+// released to the reader).
+func rawChunks(r *rng.R, thorough bool) {
+	sizes := []int{1 << 20, 1<<20 - 1, 1<<20 + 1, 2 << 20, 64 << 10, 3<<20 + 17}
+	if thorough {
+		sizes = append(sizes, 128<<10, 512<<10, 3<<20, 1<<20+64<<10, 4<<20-2048)
+	}
+	note("case raw-chunks")
+	lis, err := net.Listen("tcp", "127.0.0.1:0")
+	if err != nil {
+		note("note raw-chunks skipped: %v", err)
+		return
+	}
+	ws, _ := otelstef.MetricsWireSchema()
+	total := 0
+	for _, s := range sizes {
+		total += s
+	}
+	gotCh := make(chan int, 1)
+	progress := make(chan int, 1024)
+	srv := stefgrpc.NewStreamServer(stefgrpc.ServerSettings{
+		ServerSchema: &ws,
+		Callbacks: stefgrpc.Callbacks{OnStream: func(reader stefgrpc.GrpcReader, stream stefgrpc.STEFStream) error {
+			buf := make([]byte, 256<<10)
+			n := 0
+			for {
+				k, err := reader.Read(buf)
+				n += k
+				select {
+				case progress <- n:
+				default:
+				}
+				if err != nil {
+					gotCh <- n
+					return nil
+				}
+			}
+		}},
+	})
+	gs := grpc.NewServer()
+	stef_proto.RegisterSTEFDestinationServer(gs, srv)
+	go gs.Serve(lis)
+	defer gs.Stop()
+	conn, err := grpc.NewClient(lis.Addr().String(), grpc.WithTransportCredentials(insecure.NewCredentials()))
+	if err != nil {
+		note("note raw-chunks skipped: %v", err)
+		return
+	}
+	defer conn.Close()
+	cl, err := stefgrpc.NewClient(stefgrpc.ClientSettings{
+		GrpcClient:   stef_proto.NewSTEFDestinationClient(conn),
+		ClientSchema: stefgrpc.ClientSchema{RootStructName: "Metrics", WireSchema: &ws},
+		Callbacks:    stefgrpc.ClientCallbacks{OnAck: func(uint64) error { return nil }},
+	})
+	if err != nil {
+		propFail("C14 burst-client case=raw-chunks %v", err)
+		return
+	}
+	ctx, cancel := context.WithTimeout(context.Background(), 20*time.Second)
+	defer cancel()
+	cw, _, err := cl.Connect(ctx)
+	if err != nil {
+		propFail("C14 burst-connect case=raw-chunks %v", err)
+		return
+	}
+	sent := 0
+	for i, sz := range sizes {
+		hl := 3 + r.Intn(8)
+		b := make([]byte, sz)
+		for x := 0; x < len(b); x += 61 {
+			b[x] = byte(r.U64())
+		}
+		if err := cw.WriteChunk(b[:hl], b[hl:]); err != nil {
+			propFail("C14 chunk-not-delivered case=raw-chunks chunk %d of %d bytes: WriteChunk returned %v", i, sz, err)
+			return
+		}
+		sent += sz
+		// the chunk must reach the reader before anything else is sent
+		deadline := time.After(5 * time.Second)
+		seen := 0
+	wait:
+		for seen < sent {
+			select {
+			case seen = <-progress:
+			case <-deadline:
+				break wait
+			}
+		}
+		stats["raw-chunks"]++
+		if seen < sent {
+			propFail("C14 chunk-not-delivered case=raw-chunks chunk %d of exactly %d bytes (header %d + content %d) written through the ChunkWriter that Connect returned: the server's reader holds %d of %d bytes 5 s later", i, sz, hl, sz-hl, seen, sent)
+			break
+		}
+	}
+	note("nontrivial %x", uint64(total))
+	cl.Disconnect(context.Background())
+	select {
+	case <-gotCh:
+	case <-time.After(3 * time.Second):
+	}
+}
